@@ -99,3 +99,15 @@ pub(crate) fn stub_string_push_str(s: &mut String, t: &str) {
 pub(crate) fn stub_f64_display(_x: &f64, _f: &mut core::fmt::Formatter<'_>) -> core::fmt::Result {
     Ok(())
 }
+
+/// Stubs for `String::push` / `String::push_str` / `str::repeat` in harnesses whose subject is NOT the text a
+/// manifester produces (the frame discipline of its nesting steps): nothing is appended. The output buffer of a
+/// manifester lives on `string_stack` (a heap buffer), where its length and capacity are not constants for the
+/// symbolic executor, so every real `push` explores the growth path with a symbolic allocation size.
+pub(crate) fn stub_string_push_nothing(_s: &mut String, _c: char) {}
+
+pub(crate) fn stub_string_push_str_nothing(_s: &mut String, _t: &str) {}
+
+pub(crate) fn stub_str_repeat_empty(_s: &str, _n: usize) -> String {
+    String::new()
+}
